@@ -2,7 +2,7 @@
 """Copy verified file-directed seeded changes from /tmp/mutants/G<k>/<x>/ into /verif/seeded/<property>-g<k><x>/ (the property is
 the one the agent named in meta.json)."""
 import glob, json, os, shutil
-for d in sorted(glob.glob('/tmp/mutants/[GHIJKL]?/[a-d]')):
+for d in sorted(glob.glob('/tmp/mutants/[GHIJKLN]?/[a-d]')):
     v = os.path.join(d, 'verified.json')
     if not os.path.exists(v):
         continue
